@@ -496,7 +496,7 @@ def run(tier, seed):
     jobs = [(sc, bound, None) for sc, bound in scs]
     k = seed % len(jobs)
     jobs = jobs[k:] + jobs[:k]
-    parts = env.parallel(_job, [("t", None)] + [("s", j) for j in jobs])
+    parts = env.parallel(_job, [("t", None)] + [("s", j) for j in jobs], pin=True)
     for r in parts:
         res.merge(r)
     res.part("scenarios", count=len(scs))
